@@ -1,4 +1,5 @@
 import EmmetProofs.Color
+import EmmetProofs.Units
 /-! # C05 — colours never change their value (hex round trip), for all 2^24 colours -/
 namespace EmmetProps
 open CA
@@ -15,5 +16,25 @@ theorem C05_hex3_roundtrip (r g b : Nat) (hr : r < 256) (hg : g < 256) (hb : b <
 
 /-- non-vacuity / regression: channel 0x0e is written `0e` (it was `e0` before the repair) -/
 example : toHex 14 = [48, 101] := by decide +kernel
+
+/-- the unit decision, for EVERY option set, property name and value list: an explicit unit is replaced when it is an alias and kept
+otherwise; a bare number keeps no unit when it is 0 or the property is unitless, and otherwise gets the float unit when written with a
+dot and the integer unit when not; everything that is not a number is untouched and nothing is added, dropped or reordered -/
+theorem C05_units (o : SOpts) (name : Option Str) (vals : List (List VItem)) :
+    resolveNumeric o name vals = vals.map (·.map (numericItem o name)) := CA.resolveNumeric_spec o name vals
+
+/-- the documented defaults, read off the REGENERATED option table through the configuration model: integers `px`, floats `em`,
+aliases e/p/x/r = em/%/ex/rem, the eight unitless properties -/
+theorem C05_default_units :
+    (Cfg.stylesheetOptions cssCfg []).intUnit = lit "px" ∧ (Cfg.stylesheetOptions cssCfg []).floatUnit = lit "em"
+    ∧ (Cfg.stylesheetOptions cssCfg []).unitAliases = [(lit "e", lit "em"), (lit "p", lit "%"), (lit "x", lit "ex"), (lit "r", lit "rem")]
+    ∧ (Cfg.stylesheetOptions cssCfg []).unitless
+        = ["z-index", "line-height", "opacity", "font-weight", "zoom", "flex", "flex-grow", "flex-shrink"].map lit := CA.default_units
+
+/-- non-vacuity: `10` → px, `1.5` → em, `0` bare, `10p` → %, `2` on `z-index` bare, `3q` keeps `q` -/
+example : unitSpec {} (some (lit "margin")) (lit "10") [] = lit "px" ∧ unitSpec {} (some (lit "margin")) (lit "1.5") [] = lit "em"
+    ∧ unitSpec {} (some (lit "margin")) (lit "0") [] = [] ∧ unitSpec {} (some (lit "margin")) (lit "10") (lit "p") = lit "%"
+    ∧ unitSpec {} (some (lit "z-index")) (lit "2") [] = [] ∧ unitSpec {} (some (lit "margin")) (lit "3") (lit "q") = lit "q" := by
+  decide +kernel
 
 end EmmetProps
